@@ -1,11 +1,27 @@
 (* C10 half (b), round trip — the hypotheses of the round-trip theorems are
-   satisfiable: a grammar with every construct (several %token / precedence lines,
-   %start, %epp with an escaped quote, %avoid_insert, %expect, %expect-rr, a rule
-   written in two blocks, empty productions with and without %empty, %prec,
-   actions with nested braces / empty text / blanks inside the braces) under a
-   layout with comments, newlines, all three spellings and empty gaps. *)
+   satisfiable, in each of the three dialects:
+
+   [ex_ag] / [ex_lay]    Original: a grammar with every construct (several %token /
+       precedence lines, %start, %epp with an escaped quote, %avoid_insert, %expect,
+       %expect-rr, %actiontype, %parse-param, %parse-generics, %expect-unused, a rule
+       written in two blocks, empty productions with and without %empty, %prec, actions
+       with nested braces / empty text / blanks inside the braces, a programs section)
+       under a layout with comments, newlines, all three spellings and empty gaps;
+   [gx_ag] / [gx_lay]    Grmtools: every rule block carries an action type
+       ([Result<u64, ()>], [std::vec::Vec<u8>], [()]), %parse-param, %parse-generics,
+       %expect-unused, a programs section;
+   [eco_ag] / [eco_lay]  Eco: an %implicit_tokens line; the gap after %start holds a
+       // comment and its newline (a line layout that is not newline-free).
+
+   On each of them the conclusion of the round-trip theorem is evaluated
+   ([ex_roundtrip_*], [gx_roundtrip_*], [eco_roundtrip_*]).
+
+   Two refutation witnesses show what the side conditions "blocks of one rule agree on
+   the type" and "at most one %parse-param" of [wf_agram] exclude: in both cases the
+   parser reports NOTHING (no error, no warning) and silently keeps only one of the two
+   values ([rule_type_conflict_refuted], [parse_param_twice_refuted]). *)
 From Coq Require Import List Arith NArith ZArith Bool Lia Strings.String Strings.Ascii.
-From GV Require Import Common.Outcome C10.YpModel C10.YpSpec C10.YpProofs C10.YpPrint C10.YpRoundSpec C10.YpRoundBase.
+From GV Require Import Common.Outcome C10.YpModel C10.YpSpec C10.YpProofs C10.YpPrint C10.YpRoundSpec.
 Import ListNotations.
 Local Open Scope nat_scope.
 Lemma lt_app : forall a b, layout_text a -> layout_text b -> layout_text (a ++ b).
@@ -31,21 +47,14 @@ Fixpoint look {A} (d : A) (l : list (list nat * A)) (p : list nat) : A :=
   match l with [] => d | (k, v) :: l' => if path_eqb k p then v else look d l' p end.
 
 Definition nl : str := [c_nl].
-Definition ex_ag : agram := mkAG
-  [DToken [s "x"; s "y"]; DStart (s "A"); DPrec ALeft [s "+"; s "x"]; DPrec ARight [s "-"];
-   DEpp (s "x") (s "it's"); DAvoid [s "y"; s "q"]; DExpect 7%N; DExpectRR 0%N]
-  [mkARule (s "A") [mkAProd [ARule (s "A"); ATok (s "+"); ATok (s "x")] None (Some (s "act {}"));
-                    mkAProd [ARule (s "B")] (Some (s "-")) None;
-                    mkAProd [] None None];
-   mkARule (s "B") [mkAProd [] None (Some (s "")); mkAProd [ATok (s "y"); ATok (s "x")] (Some (s "+")) (Some (s "z"))];
-   mkARule (s "A") [mkAProd [ATok (s "q")] None None]].
 
-Definition ex_lay : layout := mkLay
-  (look (s " ") [([0], s "/* c */" ++ nl); ([1;0;2], nl); ([1;2;2], s " // c" ++ nl); ([1;3;1], nl); ([1;5;2], nl ++ s "   ");
-                 ([4;0;0;0;1], []); ([4;0;0;0;2], []);([4;0;0;3], []); ([4;1;0;4], s "/**/"); ([2], nl)])
-  (look QBare [([1;2;0], QSq); ([1;3;0], QDq); ([1;4;1], QSq); ([1;5;1], QDq); ([4;0;0;0;1], QSq); ([4;0;1;1], QSq); ([4;1;1;1], QDq); ([4;2;0;0;0], QDq)])
-  (look [] [([1;4;0], s "it\'s"); ([1;6;0], s "007"); ([1;7;0], s "0"); ([4;0;0;6], s "  "); ([4;0;0;7], nl); ([4;1;0;6], s " "); ([4;1;0;7], s " ")])
-  (look false [([4;1;0], true); ([4;0;2], true)]).
+(* a line layout that is NOT newline-free: blank, // comment, the comment's newline *)
+Lemma ll_comment : line_layout (s " // c" ++ nl).
+Proof.
+  change (line_layout ([32%N] ++ (c_slash :: c_slash :: s " c" ++ [c_nl]) ++ [])).
+  apply LL_cons; [apply LI_blank; reflexivity | left; reflexivity |].
+  apply LL_cons; [apply LI_line; reflexivity | right; eexists; reflexivity | apply LL_nil].
+Qed.
 
 Ltac lt :=
   first [ apply lt_blanks; reflexivity
@@ -53,43 +62,89 @@ Ltac lt :=
         | apply (lt_block []); reflexivity
         | apply (lt_app (s " ") (c_slash :: c_slash :: s " c" ++ [c_nl])); [apply lt_blanks; reflexivity | apply lt_line; reflexivity]
         | apply (lt_app (c_slash :: c_star :: s " c " ++ [c_star; c_slash]) nl); [apply (lt_block (s " c ")); reflexivity | apply lt_blanks; reflexivity] ].
+(* line layouts: newline-free layout texts, or the one with a // comment *)
+Ltac ll :=
+  first [ apply layout_text_line; [lt | reflexivity]
+        | exact ll_comment ].
+
+(* the conjuncts of [wf_decls] / [wf_rules] / [wf_programs] on a concrete instance *)
+Ltac wf_tac :=
+  repeat split; try (cbn; lt); try (cbn; ll); try reflexivity; try (cbn; discriminate); try (cbn; lia);
+  try (cbn; intros; discriminate); try (cbn; intros; congruence);
+  try (unfold nl1, nl0; vm_compute; lia); try (vm_compute; reflexivity).
+
+(* the conjuncts of [wf_agram] on a concrete instance *)
+Ltac kind_tac :=
+  repeat (apply Forall_cons;
+          [ let HH := fresh "HH" in
+            unfold rule_kind_ok; cbn; split; intro HH;
+            first [reflexivity | discriminate HH | (exfalso; apply HH; reflexivity)] |]);
+  apply Forall_nil.
+Ltac agree_tac :=
+  let r1 := fresh "r1" in let r2 := fresh "r2" in let H1 := fresh "H1" in let H2 := fresh "H2" in
+  let Hn := fresh "Hn" in
+  intros r1 r2 H1 H2 Hn; cbn in H1, H2;
+  repeat match goal with
+         | H : _ \/ _ |- _ => destruct H as [H|H]
+         | H : False |- _ => destruct H
+         end;
+  subst; vm_compute in Hn |- *; first [reflexivity | discriminate Hn].
+Ltac eu_tac :=
+  let n := fresh "n" in let H := fresh "H" in
+  vm_compute; intros n H;
+  repeat (destruct H as [H|H]; [try discriminate H; injection H as <-; tauto|]);
+  destruct H.
+Ltac ag_tac :=
+  first [ vm_compute; lia
+        | vm_compute; repeat constructor; cbn; intuition discriminate
+        | discriminate
+        | vm_compute; intros n H; tauto
+        | vm_compute; intros n H; injection H as <-; tauto
+        | kind_tac
+        | agree_tac
+        | eu_tac ].
+
+(* ======================================================================== *)
+(*  Original dialect                                                          *)
+(* ======================================================================== *)
+Definition ex_ag : agram := mkAG
+  [DToken [s "x"; s "y"]; DStart (s "A"); DPrec ALeft [s "+"; s "x"]; DPrec ARight [s "-"];
+   DEpp (s "x") (s "it's"); DAvoid [s "y"; s "q"]; DExpect 7%N; DExpectRR 0%N;
+   DActiontype (s "u64"); DParseParam (s "p") (s "&mut Vec<u8>"); DParseGenerics (s "'a, T: 'a");
+   DExpectUnused [ARule (s "B"); ATok (s "q"); ATok (s "+")]]
+  [mkARule (s "A") None [mkAProd [ARule (s "A"); ATok (s "+"); ATok (s "x")] None (Some (s "act {}"));
+                         mkAProd [ARule (s "B")] (Some (s "-")) None;
+                         mkAProd [] None None];
+   mkARule (s "B") None [mkAProd [] None (Some (s "")); mkAProd [ATok (s "y"); ATok (s "x")] (Some (s "+")) (Some (s "z"))];
+   mkARule (s "A") None [mkAProd [ATok (s "q")] None None]]
+  (Some (s "fn main() { }" ++ nl ++ s "%% // not a separator" ++ nl)).
+
+Definition ex_lay : layout := mkLay
+  (look (s " ") [([0], s "/* c */" ++ nl); ([1;0;2], nl); ([1;2;2], s " // c" ++ nl); ([1;3;1], nl); ([1;5;2], nl ++ s "   ");
+                 ([1;8;1], nl); ([1;9;2], nl ++ s " "); ([1;10;1], nl ++ s "/* c */" ++ nl); ([1;11;2], []); ([1;11;3], nl);
+                 ([4;0;0;0;1], []); ([4;0;0;0;2], []);([4;0;0;3], []); ([4;1;0;4], s "/**/"); ([2], nl); ([5], nl)])
+  (look QBare [([1;2;0], QSq); ([1;3;0], QDq); ([1;4;1], QSq); ([1;5;1], QDq); ([1;11;1], QSq); ([1;11;2], QDq);
+               ([4;0;0;0;1], QSq); ([4;0;1;1], QSq); ([4;1;1;1], QDq); ([4;2;0;0;0], QDq)])
+  (look [] [([1;4;0], s "it\'s"); ([1;6;0], s "007"); ([1;7;0], s "0"); ([1;9;0], s "  ");
+            ([4;0;0;6], s "  "); ([4;0;0;7], nl); ([4;1;0;6], s " "); ([4;1;0;7], s " ")])
+  (look false [([4;1;0], true); ([4;0;2], true)]).
 
 Example ex_wf_layout : wf_layout ex_lay ex_ag.
 Proof.
-  unfold wf_layout. split; [|split; [|split]].
+  unfold wf_layout. split; [|split; [|split; [|split]]].
   - cbv [ex_lay l_gap look path_eqb]. cbn. lt.
-  - cbn [ex_ag ag_decls wf_decls]. repeat split; try (cbn; lt); try reflexivity; try (cbn; discriminate); try (cbn; lia).
-    all: try (cbn; intros; discriminate).
-    all: try (cbn; intros; congruence).
-    all: try (unfold nl1; vm_compute; lia).
-    vm_compute.
-    repeat (first [apply Esc_nil | apply Esc_quote; [left; reflexivity|] | apply Esc_plain; [discriminate | discriminate | reflexivity |]]).
+  - cbn [ex_ag ag_decls wf_decls]. wf_tac.
+    + vm_compute.
+      repeat (first [apply Esc_nil | apply Esc_quote; [left; reflexivity|] | apply Esc_plain; [discriminate | discriminate | reflexivity |]]).
+    + cbn. apply (lt_app nl (s "/* c */" ++ nl)); [apply lt_blanks; reflexivity | lt].
   - cbv [ex_lay l_gap look path_eqb]. cbn. lt.
-  - cbn [ex_ag ag_rules wf_rules]. repeat split; try (cbn; lt); try reflexivity; try (cbn; discriminate); try (cbn; lia).
-    all: try (cbn; intros; discriminate).
-    all: try (cbn; intros; congruence).
+  - cbn [ex_ag ag_rules wf_rules]. wf_tac.
+  - unfold wf_programs. cbn [ex_ag ag_programs]. wf_tac.
 Qed.
 
-Example ex_wf_agram : wf_agram ex_ag.
-Proof.
-  unfold wf_agram. repeat split.
-  - vm_compute. lia.
-  - vm_compute. lia.
-  - vm_compute. lia.
-  - vm_compute. repeat constructor; cbn; intuition discriminate.
-  - vm_compute. repeat constructor; cbn; intuition discriminate.
-  - vm_compute. repeat constructor; cbn; intuition discriminate.
-  - discriminate.
-  - vm_compute. intros n H. injection H as <-. tauto.
-  - vm_compute. intros n H. tauto.
-  - vm_compute. intros n H. tauto.
-  - vm_compute. intros n H. tauto.
-Qed.
+Example ex_wf_agram : wf_agram KOriginal ex_ag.
+Proof. unfold wf_agram. repeat split; ag_tac. Qed.
 
-Lemma roundtrip_hyps_satisfiable : roundtrip_hyps_satisfiable_stmt.
-Proof. exists ex_lay, ex_ag. split; [exact ex_wf_agram | exact ex_wf_layout]. Qed.
-
-(* the theorem's conclusion on this instance, by computation (both action-span variants) *)
 Example ex_roundtrip_true :
   run_case true true KOriginal (print ex_lay ex_ag)
   = Done (TResult (ast_of true ex_lay ex_ag) [] (warnings_of true ex_lay ex_ag)).
@@ -98,3 +153,301 @@ Example ex_roundtrip_false :
   run_case true false KOriginal (print ex_lay ex_ag)
   = Done (TResult (ast_of false ex_lay ex_ag) [] (warnings_of false ex_lay ex_ag)).
 Proof. vm_compute. reflexivity. Qed.
+
+(* ======================================================================== *)
+(*  Grmtools dialect                                                          *)
+(* ======================================================================== *)
+(*   %token INT PLUS
+     %start Expr
+     %parse-param ctx : &mut Ctx
+     %left PLUS
+     %expect-unused Unused "INT"
+     %parse-generics T: Clone
+     %%
+     Expr -> Result<u64, ()>: Expr 'PLUS' Term { $1 + $3 } | Term {$1} ;
+     Term ->std::vec::Vec<u8> : 'INT' {vec![]} ;
+     Unused ->/* c */
+     (): ;
+     Expr -> Result<u64, ()>: "INT" %prec PLUS ;
+     %%
+     fn f() {}                                                                  *)
+Definition gx_ag : agram := mkAG
+  [DToken [s "INT"; s "PLUS"]; DStart (s "Expr"); DParseParam (s "ctx") (s "&mut Ctx");
+   DPrec ALeft [s "PLUS"]; DExpectUnused [ARule (s "Unused"); ATok (s "INT")]; DParseGenerics (s "T: Clone")]
+  [mkARule (s "Expr") (Some (s "Result<u64, ()>"))
+     [mkAProd [ARule (s "Expr"); ATok (s "PLUS"); ARule (s "Term")] None (Some (s "$1 + $3"));
+      mkAProd [ARule (s "Term")] None (Some (s "$1"))];
+   mkARule (s "Term") (Some (s "std::vec::Vec<u8>")) [mkAProd [ATok (s "INT")] None (Some (s "vec![]"))];
+   mkARule (s "Unused") (Some (s "()")) [mkAProd [] None None];
+   mkARule (s "Expr") (Some (s "Result<u64, ()>")) [mkAProd [ATok (s "INT")] (Some (s "PLUS")) None]]
+  (Some (s "fn f() {}")).
+
+Definition gx_lay : layout := mkLay
+  (look (s " ") [([0], []); ([1;0;2], nl); ([1;1;1], nl); ([1;2;2], nl); ([1;3;1], nl); ([1;4;2], nl); ([1;5;1], nl);
+                 ([2], nl); ([3;1;2], []); ([3;2;2], s "/* c */" ++ nl); ([4;0;1;5], nl); ([4;1;0;5], nl);
+                 ([4;2;0;5], nl); ([4;3;0;5], nl); ([5], nl)])
+  (look QBare [([1;4;1], QDq); ([4;0;0;0;1], QSq); ([4;1;0;0;0], QSq); ([4;3;0;0;0], QDq)])
+  (look [] [([1;2;0], s " "); ([3;1;3], s " "); ([4;0;0;6], s " "); ([4;0;0;7], s " ")])
+  (look false []).
+
+Example gx_wf_layout : wf_layout gx_lay gx_ag.
+Proof.
+  unfold wf_layout. split; [|split; [|split; [|split]]].
+  - cbv [gx_lay l_gap look path_eqb]. cbn. lt.
+  - cbn [gx_ag ag_decls wf_decls]. wf_tac.
+  - cbv [gx_lay l_gap look path_eqb]. cbn. lt.
+  - cbn [gx_ag ag_rules wf_rules]. wf_tac.
+  - unfold wf_programs. cbn [gx_ag ag_programs]. wf_tac.
+Qed.
+
+Example gx_wf_agram : wf_agram KGrmtools gx_ag.
+Proof. unfold wf_agram. repeat split; ag_tac. Qed.
+
+Example gx_roundtrip_true :
+  run_case true true KGrmtools (print gx_lay gx_ag)
+  = Done (TResult (ast_of true gx_lay gx_ag) [] (warnings_of true gx_lay gx_ag)).
+Proof. vm_compute. reflexivity. Qed.
+Example gx_roundtrip_false :
+  run_case true false KGrmtools (print gx_lay gx_ag)
+  = Done (TResult (ast_of false gx_lay gx_ag) [] (warnings_of false gx_lay gx_ag)).
+Proof. vm_compute. reflexivity. Qed.
+
+(* the action types arrive in the AST *)
+Example gx_types :
+  map (fun r => (r_name r, r_actiont r)) (a_rules (ast_of true gx_lay gx_ag))
+  = [(s "Expr", Some (s "Result<u64, ()>")); (s "Term", Some (s "std::vec::Vec<u8>")); (s "Unused", Some (s "()"))].
+Proof. vm_compute. reflexivity. Qed.
+
+(* ======================================================================== *)
+(*  Eco dialect                                                               *)
+(* ======================================================================== *)
+(*   %token x y
+     %start // c
+     S
+     %implicit_tokens ws cm
+     %avoid_insert x
+     %expect-unused 'y'
+     %nonassoc x
+     %%
+     S : 'x' T | ;
+     T : y %prec x {a} ;                                                        *)
+Definition eco_ag : agram := mkAG
+  [DToken [s "x"; s "y"]; DStart (s "S"); DImplicit [s "ws"; s "cm"]; DAvoid [s "x"];
+   DExpectUnused [ATok (s "y")]; DPrec ANonassoc [s "x"]]
+  [mkARule (s "S") None [mkAProd [ATok (s "x"); ARule (s "T")] None None; mkAProd [] None None];
+   mkARule (s "T") None [mkAProd [ATok (s "y")] (Some (s "x")) (Some (s "a"))]]
+  None.
+
+Definition eco_lay : layout := mkLay
+  (look (s " ") [([0], []); ([1;0;2], nl); ([1;1;0], s " // c" ++ nl); ([1;1;1], nl); ([1;2;2], nl); ([1;3;1], nl);
+                 ([1;4;1], nl); ([1;5;1], nl); ([2], nl); ([4;0;1;5], nl); ([4;1;0;5], nl)])
+  (look QBare [([1;4;0], QSq); ([4;0;0;0;0], QSq)])
+  (look [] [])
+  (look false []).
+
+Example eco_wf_layout : wf_layout eco_lay eco_ag.
+Proof.
+  unfold wf_layout. split; [|split; [|split; [|split]]].
+  - cbv [eco_lay l_gap look path_eqb]. cbn. lt.
+  - cbn [eco_ag ag_decls wf_decls]. wf_tac.
+  - cbv [eco_lay l_gap look path_eqb]. cbn. lt.
+  - cbn [eco_ag ag_rules wf_rules]. wf_tac.
+  - exact I.
+Qed.
+
+(* the gap after %start really contains a newline: the generalisation of [line_gap] from
+   newline-free texts to line layouts is used *)
+Example eco_start_gap_has_newline : count_nl (dg (dlay_of eco_lay 1) 0) = 1.
+Proof. reflexivity. Qed.
+
+Example eco_wf_agram : wf_agram KEco eco_ag.
+Proof. unfold wf_agram. repeat split; ag_tac. Qed.
+
+Example eco_roundtrip_true :
+  run_case true true KEco (print eco_lay eco_ag)
+  = Done (TResult (ast_of true eco_lay eco_ag) [] (warnings_of true eco_lay eco_ag)).
+Proof. vm_compute. reflexivity. Qed.
+Example eco_roundtrip_false :
+  run_case true false KEco (print eco_lay eco_ag)
+  = Done (TResult (ast_of false eco_lay eco_ag) [] (warnings_of false eco_lay eco_ag)).
+Proof. vm_compute. reflexivity. Qed.
+
+(* ======================================================================== *)
+(*  The hypotheses are satisfiable in every dialect                           *)
+(* ======================================================================== *)
+Lemma roundtrip_hyps_satisfiable : roundtrip_hyps_satisfiable_stmt.
+Proof.
+  intros [| |].
+  - exists ex_lay, ex_ag. split; [exact ex_wf_agram | exact ex_wf_layout].
+  - exists gx_lay, gx_ag. split; [exact gx_wf_agram | exact gx_wf_layout].
+  - exists eco_lay, eco_ag. split; [exact eco_wf_agram | exact eco_wf_layout].
+Qed.
+
+(* ======================================================================== *)
+(*  What the side conditions of [wf_agram] exclude                            *)
+(* ======================================================================== *)
+(* [wf_agram] without the conjunct "blocks of one rule agree on the type" *)
+Definition wf_agram_but_types (k : ykind) (ag : agram) : Prop :=
+  count_decl (fun d => match d with DStart _ => true | _ => false end) ag <= 1 /\
+  count_decl (fun d => match d with DExpect _ => true | _ => false end) ag <= 1 /\
+  count_decl (fun d => match d with DExpectRR _ => true | _ => false end) ag <= 1 /\
+  NoDup (flat_map snd (ag_precs ag)) /\
+  NoDup (map fst (ag_epp ag)) /\
+  NoDup (ag_avoid ag) /\
+  ag_rules ag <> [] /\
+  (forall n, ag_start ag = Some n -> In n (map ar_name (ag_rules ag))) /\
+  (forall n, In n (rule_refs ag) -> In n (map ar_name (ag_rules ag))) /\
+  (forall t, In t (prec_uses ag) -> In t (flat_map snd (ag_precs ag))) /\
+  (forall t, In t (map fst (ag_epp ag)) -> In t (known_toks ag)) /\
+  Forall (decl_kind_ok k) (ag_decls ag) /\
+  Forall (rule_kind_ok k) (ag_rules ag) /\
+  count_decl (fun d => match d with DActiontype _ => true | _ => false end) ag <= 1 /\
+  count_decl (fun d => match d with DParseParam _ _ => true | _ => false end) ag <= 1 /\
+  count_decl (fun d => match d with DParseGenerics _ => true | _ => false end) ag <= 1 /\
+  NoDup (ag_implicit ag) /\
+  (forall n, In (ARule n) (ag_expect_unused ag) -> In n (map ar_name (ag_rules ag))) /\
+  (forall n, In (ATok n) (ag_expect_unused ag) -> In n (known_toks ag)).
+
+(* [wf_agram] without the conjunct "at most one %parse-param" *)
+Definition wf_agram_but_pp (k : ykind) (ag : agram) : Prop :=
+  count_decl (fun d => match d with DStart _ => true | _ => false end) ag <= 1 /\
+  count_decl (fun d => match d with DExpect _ => true | _ => false end) ag <= 1 /\
+  count_decl (fun d => match d with DExpectRR _ => true | _ => false end) ag <= 1 /\
+  NoDup (flat_map snd (ag_precs ag)) /\
+  NoDup (map fst (ag_epp ag)) /\
+  NoDup (ag_avoid ag) /\
+  ag_rules ag <> [] /\
+  (forall n, ag_start ag = Some n -> In n (map ar_name (ag_rules ag))) /\
+  (forall n, In n (rule_refs ag) -> In n (map ar_name (ag_rules ag))) /\
+  (forall t, In t (prec_uses ag) -> In t (flat_map snd (ag_precs ag))) /\
+  (forall t, In t (map fst (ag_epp ag)) -> In t (known_toks ag)) /\
+  Forall (decl_kind_ok k) (ag_decls ag) /\
+  Forall (rule_kind_ok k) (ag_rules ag) /\
+  (forall r1 r2, In r1 (ag_rules ag) -> In r2 (ag_rules ag) -> ar_name r1 = ar_name r2 -> ar_type r1 = ar_type r2) /\
+  count_decl (fun d => match d with DActiontype _ => true | _ => false end) ag <= 1 /\
+  count_decl (fun d => match d with DParseGenerics _ => true | _ => false end) ag <= 1 /\
+  NoDup (ag_implicit ag) /\
+  (forall n, In (ARule n) (ag_expect_unused ag) -> In n (map ar_name (ag_rules ag))) /\
+  (forall n, In (ATok n) (ag_expect_unused ag) -> In n (known_toks ag)).
+
+(* the two weakened predicates are [wf_agram] minus one conjunct *)
+Lemma wf_agram_split : forall k ag,
+  wf_agram k ag <->
+  wf_agram_but_types k ag /\
+  (forall r1 r2, In r1 (ag_rules ag) -> In r2 (ag_rules ag) -> ar_name r1 = ar_name r2 -> ar_type r1 = ar_type r2).
+Proof. intros k ag. unfold wf_agram, wf_agram_but_types. tauto. Qed.
+Lemma wf_agram_split_pp : forall k ag,
+  wf_agram k ag <->
+  wf_agram_but_pp k ag /\
+  count_decl (fun d => match d with DParseParam _ _ => true | _ => false end) ag <= 1.
+Proof. intros k ag. unfold wf_agram, wf_agram_but_pp. tauto. Qed.
+
+(* ---- two blocks of one rule with different action types (Grmtools) ------------- *)
+(*     %% A -> u32: 'a' ; A -> u64: 'b' ;
+   parses WITHOUT error or warning to a grammar whose rule A has action type u32: the
+   type of the second block is silently dropped. *)
+Definition tc_ag : agram := mkAG []
+  [mkARule (s "A") (Some (s "u32")) [mkAProd [ATok (s "a")] None None];
+   mkARule (s "A") (Some (s "u64")) [mkAProd [ATok (s "b")] None None]]
+  None.
+Definition tc_lay : layout := mkLay (fun _ => s " ") (fun _ => QSq) (fun _ => []) (fun _ => false).
+
+Example tc_source : print tc_lay tc_ag = s " %% A -> u32: 'a' ; A -> u64: 'b' ; ".
+Proof. vm_compute. reflexivity. Qed.
+
+Definition rule_type_conflict_refuted_stmt : Prop :=
+  exists l ag, wf_layout l ag /\ wf_agram_but_types KGrmtools ag /\
+    forall fa, exists r1 r2 A,
+      In r1 (ag_rules ag) /\ In r2 (ag_rules ag) /\ ar_name r1 = ar_name r2 /\ ar_type r1 <> ar_type r2 /\
+      (* accepted: no error; the warnings are those of the AST: none *)
+      run_case true fa KGrmtools (print l ag) = Done (TResult A [] (warnings A)) /\
+      warnings A = Done [] /\
+      (* the rule has the first block's type, not the second's *)
+      (exists r, In r (a_rules A) /\ r_name r = ar_name r2 /\ r_actiont r = ar_type r1 /\ r_actiont r <> ar_type r2).
+
+Lemma rule_type_conflict_refuted : rule_type_conflict_refuted_stmt.
+Proof.
+  exists tc_lay, tc_ag. split; [|split].
+  - unfold wf_layout. split; [|split; [|split; [|split]]].
+    + cbn. lt.
+    + exact I.
+    + cbn. lt.
+    + cbn [tc_ag ag_rules wf_rules]. wf_tac.
+    + exact I.
+  - unfold wf_agram_but_types. repeat split; ag_tac.
+  - intros fa.
+    exists (mkARule (s "A") (Some (s "u32")) [mkAProd [ATok (s "a")] None None]),
+           (mkARule (s "A") (Some (s "u64")) [mkAProd [ATok (s "b")] None None]),
+           (ast_of fa tc_lay tc_ag).
+    split; [left; reflexivity|]. split; [right; left; reflexivity|].
+    split; [reflexivity|]. split; [vm_compute; discriminate|].
+    split; [destruct fa; vm_compute; reflexivity|]. split; [destruct fa; vm_compute; reflexivity|].
+    exists (mkRule (s "A") (4, 5) [0; 1] (Some (s "u32"))).
+    split; [destruct fa; vm_compute; left; reflexivity|].
+    split; [reflexivity|]. split; [reflexivity|]. vm_compute. discriminate.
+Qed.
+
+(* ---- %parse-param given twice (every dialect) ------------------------------------ *)
+(*     %parse-param a : u32
+       %parse-param b : u64
+       %% A : 'x' ;            (Grmtools:  A -> u8: 'x' ;)
+   no error, no warning; the AST keeps only the last one. *)
+Definition pp_ag (k : ykind) : agram := mkAG
+  [DParseParam (s "a") (s "u32"); DParseParam (s "b") (s "u64")]
+  [mkARule (s "A") (match k with KGrmtools => Some (s "u8") | _ => None end) [mkAProd [ATok (s "x")] None None]]
+  None.
+Definition pp_lay : layout := mkLay
+  (look (s " ") [([1;0;2], nl); ([1;1;2], nl)]) (fun _ => QSq) (look [] [([1;0;0], s " "); ([1;1;0], s " ")]) (fun _ => false).
+
+Example pp_source :
+  print pp_lay (pp_ag KOriginal) = s " %parse-param a : u32" ++ nl ++ s "%parse-param b : u64" ++ nl ++ s "%% A : 'x' ; ".
+Proof. vm_compute. reflexivity. Qed.
+
+Definition parse_param_twice_refuted_stmt : Prop :=
+  forall k, exists l ag, wf_layout l ag /\ wf_agram_but_pp k ag /\
+    forall fa, exists n1 t1 n2 t2 A,
+      ag_decls ag = [DParseParam n1 t1; DParseParam n2 t2] /\ (n1, t1) <> (n2, t2) /\
+      run_case true fa k (print l ag) = Done (TResult A [] (warnings A)) /\
+      warnings A = Done [] /\
+      a_parse_param A = Some (n2, t2).
+
+Lemma parse_param_twice_refuted : parse_param_twice_refuted_stmt.
+Proof.
+  intros k. exists pp_lay, (pp_ag k). split; [|split].
+  - unfold wf_layout. split; [|split; [|split; [|split]]].
+    + cbn. lt.
+    + cbn [pp_ag ag_decls wf_decls]. wf_tac.
+    + cbn. lt.
+    + destruct k; cbn [pp_ag ag_rules wf_rules]; wf_tac.
+    + exact I.
+  - unfold wf_agram_but_pp. destruct k; repeat split; ag_tac.
+  - intros fa. exists (s "a"), (s "u32"), (s "b"), (s "u64"), (ast_of fa pp_lay (pp_ag k)).
+    split; [reflexivity|]. split; [vm_compute; discriminate|].
+    split; [destruct k, fa; vm_compute; reflexivity|].
+    split; [destruct k, fa; vm_compute; reflexivity|].
+    destruct k, fa; vm_compute; reflexivity.
+Qed.
+
+(* ======================================================================== *)
+(*  Comments after a value read by parse_to_eol / parse_to_single_colon       *)
+(* ======================================================================== *)
+(* Between such a value and the end of its line (the colon) a comment is not layout: it
+   becomes part of the value.  This is why the printer has no gap there ([wf_eol_text]
+   values are followed by their newline, action types by blanks only): the AST really
+   contains the comment text. *)
+Definition vc_src1 : str := s "%actiontype u64 // the type" ++ nl ++ s "%%" ++ nl ++ s "A: ;".
+Definition vc_src2 : str := s "%parse-param p : u64 /* why */" ++ nl ++ s "%%" ++ nl ++ s "A: ;".
+Definition vc_src3 : str := s "%%" ++ nl ++ s "A -> u64 /* why */ : ;".
+
+Definition value_comment_refuted_stmt : Prop :=
+  (exists A, run_case true false KOriginal vc_src1 = Done (TResult A [] (Done [])) /\
+             map r_actiont (a_rules A) = [Some (s "u64 // the type")]) /\
+  (exists A, run_case true false KOriginal vc_src2 = Done (TResult A [] (Done [])) /\
+             a_parse_param A = Some (s "p", s "u64 /* why */")) /\
+  (exists A, run_case true false KGrmtools vc_src3 = Done (TResult A [] (Done [])) /\
+             map r_actiont (a_rules A) = [Some (s "u64 /* why */")]).
+
+Lemma value_comment_refuted : value_comment_refuted_stmt.
+Proof.
+  split; [|split]; eexists; (split; [vm_compute; reflexivity | vm_compute; reflexivity]).
+Qed.
